@@ -209,7 +209,17 @@ func runWatchLoop(
 		}
 		evaluated = candidate
 		start := time.Now()
-		if err := cb(); err != nil {
+		err := cb()
+		// The callback reads the file itself. If the file no longer has the fingerprinted
+		// content (it changed between fingerprinting and the callback, or while the callback
+		// ran), what was evaluated is not candidate: forget it, so that the content the file
+		// settles on is evaluated (again) at the next reconciliation, even if it equals
+		// candidate.
+		if fingerprint(configPath) != candidate {
+			evaluated = contentFingerprint{}
+			observed = contentFingerprint{} // makes the next reconciliation schedule a callback
+		}
+		if err != nil {
 			code := "read_failed"
 			var rejected rejection
 			if errors.As(err, &rejected) {
